@@ -46,30 +46,15 @@ class AtomTable:
         c, s = z3.Real(f"c_{atom}_{D}"), z3.Real(f"s_{atom}_{D}")
         self.pairs[key] = (c, s)
         E.axioms_used.add('C1')
-        facts = [c * c + s * s == 1]
-        th = self.theta[atom] / D
-        # G: range <-> sign facts for the principal ranges (true of cos/sin)
-        half = PI / 2
-        E.used_pi = True
-        facts += [
-            z3.Implies(z3.And(th > -half, th < half), c > 0),
-            z3.Implies(z3.And(th > 0, th < PI), s > 0),
-            z3.Implies(z3.And(th > -PI, th < 0), s < 0),
-            z3.Implies(th == 0, z3.And(c == 1, s == 0)),
-            z3.Implies(z3.And(th > half, th <= PI), c < 0),
-            z3.Implies(z3.And(th >= -PI, th < -half), c < 0),
-            z3.Implies(th == half, z3.And(c == 0, s == 1)),
-            z3.Implies(th == -half, z3.And(c == 0, s == -1)),
-            z3.Implies(th == PI, z3.And(c == -1, s == 0)),
-            # converse within (-pi, pi]
-            z3.Implies(z3.And(th > -PI, th <= PI, c == 1), th == 0),
-            z3.Implies(z3.And(th > -PI, th <= PI, s == 0, c < 0), th == PI),
-            z3.Implies(z3.And(th > -PI, th <= PI, s > 0), z3.And(th > 0, th < PI)),
-            z3.Implies(z3.And(th > -PI, th <= PI, s < 0), z3.And(th > -PI, th < 0)),
-            z3.Implies(z3.And(th > -PI, th <= PI, c > 0), z3.And(th > -half, th < half)),
-            s * s <= th * th, 2 * (1 - c) <= th * th,
-        ]
         E.axioms_used.add('G')
+        E.used_pi = True
+        facts = [c * c + s * s == 1]
+        # range <-> sign facts (G) for theta/D and for every coarser multiple theta/m, m | D
+        for m in range(1, D + 1):
+            if D % m:
+                continue
+            cc, ss = (c, s) if m == D else cpow(c, s, D // m)
+            facts += _sign_facts(self.theta[atom] / m, cc, ss)
         E.defs += facts
         for h in E.hooks.get('new_pair', []):
             h(atom, D, c, s)
@@ -88,6 +73,32 @@ class AtomTable:
             else:
                 raise EngineUnsupported(f"incommensurable fractions of atom {atom}: {D}, {D2}")
         return c, s
+
+
+def _sign_facts(th, c, s):
+    """facts true of (c, s) = (cos th, sin th): quadrant signs, special values, |sin x| <= |x|, 1 - cos x <= x^2/2"""
+    half = PI / 2
+    return [
+        z3.Implies(z3.And(th > -half, th < half), c > 0),
+        z3.Implies(z3.And(th > 0, th < PI), s > 0),
+        z3.Implies(z3.And(th > -PI, th < 0), s < 0),
+        z3.Implies(th == 0, z3.And(c == 1, s == 0)),
+        z3.Implies(z3.And(th > half, th <= PI), c < 0),
+        z3.Implies(z3.And(th >= -PI, th < -half), c < 0),
+        z3.Implies(th == half, z3.And(c == 0, s == 1)),
+        z3.Implies(th == -half, z3.And(c == 0, s == -1)),
+        z3.Implies(th == PI, z3.And(c == -1, s == 0)),
+        # converse within (-pi, pi]
+        z3.Implies(z3.And(th > -PI, th <= PI, c == 1), th == 0),
+        z3.Implies(z3.And(th > -PI, th <= PI, s == 0, c < 0), th == PI),
+        z3.Implies(z3.And(th > -PI, th <= PI, s > 0), z3.And(th > 0, th < PI)),
+        z3.Implies(z3.And(th > -PI, th <= PI, s < 0), z3.And(th > -PI, th < 0)),
+        z3.Implies(z3.And(th > -PI, th <= PI, c > 0), z3.And(th > -half, th < half)),
+        z3.Implies(z3.And(th > -PI, th <= PI, c < 0), z3.Or(th > half, th < -half)),
+        z3.Implies(z3.And(th > -PI, th <= PI, c == 0, s > 0), th == half),
+        z3.Implies(z3.And(th > -PI, th <= PI, c == 0, s < 0), th == -half),
+        s * s <= th * th, 2 * (1 - c) <= th * th,
+    ]
 
 
 A = AtomTable()
@@ -194,11 +205,21 @@ class Angle(Term):
             if c is not None:
                 o = c
         if isinstance(o, Term):
-            # angle * symbolic factor: a new atom whose value is the product
+            # angle * symbolic factor: a new atom whose value is the product (sums distribute, so that
+            # phi*(a+b) = phi*a + phi*b and the addition theorem applies)
             if inv:
                 E.obligation('div', o.z != 0)
-            val = s.z / o.z if inv else s.z * o.z
-            return atom_of_expr(val)
+                return atom_of_expr(s.z / o.z)
+            oz = o.z
+            if z3.is_add(oz):
+                r = None
+                for ch in oz.children():
+                    part = s._scale(Term(ch))
+                    r = part if r is None else Angle.combine(r, part, 1)
+                return r
+            if z3.is_mul(oz) and oz.num_args() == 2 and z3.is_rational_value(oz.arg(0)):
+                return s._scale(Term(oz.arg(1)))._scale(core._const_val(oz.arg(0)))
+            return atom_of_expr(s.z * oz)
         if isinstance(o, (int, core._np.integer)):
             f, dp = Fraction(int(o)), 0
         elif isinstance(o, Fraction):
@@ -216,6 +237,14 @@ class Angle(Term):
                     f, dp = Fraction(o), 0
         if inv:
             f, dp = 1 / f, -dp
+        if f.denominator > 64 or abs(f.numerator) > 64:
+            # not a "nice" multiple: treat the product as an angle expression of its own
+            val = s.z * toz(f)
+            if dp == 1:
+                val = val * PI
+            elif dp == -1:
+                val = val / PI
+            return atom_of_expr(val)
         d = {}
         for k, (v, p) in s.ang.items():
             if abs(p + dp) > 1:
@@ -295,6 +324,9 @@ def as_angle(t):
         return Angle({}, pm)
     if isinstance(t, Term):
         z = z3.simplify(t.z)
+        lin = _linear_in_angles(z)
+        if lin is not None:
+            return lin
         cv = core._const_val(z)
         if cv is not None:
             if cv == 0:
@@ -310,6 +342,29 @@ def as_angle(t):
     raise EngineUnsupported(f"angle from {type(t)}")
 
 
+def _linear_in_angles(z):
+    """z == sum k_i * th_i (+ k*pi) over the values of known atoms -> that Angle, else None"""
+    by_id = {v.get_id(): k for k, v in A.theta.items() if z3.is_const(v)}
+    if not by_id:
+        return None
+    terms = list(z.children()) if z3.is_add(z) else [z]
+    ang, kpi = {}, Fraction(0)
+    for t in terms:
+        coef, var = Fraction(1), t
+        if z3.is_mul(t) and t.num_args() == 2 and z3.is_rational_value(t.arg(0)):
+            coef, var = core._const_val(t.arg(0)), t.arg(1)
+        if var.get_id() in by_id:
+            k = by_id[var.get_id()]
+            ang[k] = (ang.get(k, (Fraction(0), 0))[0] + coef, 0)
+        elif var.get_id() == PI.get_id():
+            kpi += coef
+        else:
+            return None
+    if any(v[0].denominator > 64 or abs(v[0].numerator) > 64 for v in ang.values()):
+        return None
+    return Angle(ang, kpi)
+
+
 def angle_input(name, D=1):
     """declare a named input angle atom"""
     A.declare(name)
@@ -323,23 +378,51 @@ class Trig:
     def sin(self, x):
         return as_angle(x).sin()
 
+    def _cached(self, kind, *args):
+        key = (kind,) + tuple(a.get_id() for a in args)
+        hit = E.labels.get(key)
+        return key, (hit[1] if hit else None)
+
     def arctan2(self, Y, X):
         Yz, Xz = toz(Y), toz(X)
         if E.decide(z3.And(Yz == 0, Xz == 0)):
             E.axioms_used.add('D1-zero')
             return 0.0
+        key, hit = self._cached('atan2', Yz, Xz)
+        if hit is not None:
+            return hit
+        r = self._arctan2(Yz, Xz)
+        E.labels[key] = ((Yz, Xz), r)
+        return r
+
+    def _arctan2(self, Yz, Xz):
         name = A.new_atom('atan')
         phi = A.value(name)
         c, s = A.pair(name, 1)
-        k = E.fresh('k')
         E.used_pi = True
         E.axioms_used.add('D1')
-        E.defs += [k > 0, k * k == Xz * Xz + Yz * Yz, k * c == Xz, k * s == Yz, phi > -PI, phi <= PI]
+        # k = sqrt(X^2+Y^2) > 0, cos = X/k, sin = Y/k -- through the certified sqrt / exact-division cuts, so that
+        # e.g. arctan2(sin a cos b, cos a cos b) becomes the pair (cos a, sin a) when cos b > 0
+        kT = Term(Xz * Xz + Yz * Yz, 8).sqrt()
+        if isnum(kT):
+            cT, sT = Term(Xz) / kT if False else Term(Xz) * (1.0 / kT), Term(Yz) * (1.0 / kT)
+        else:
+            E.defs.append(kT.z > 0)          # (X, Y) != (0, 0) on this path (decided above)
+            cT, sT = core.divide(Term(Xz), kT), core.divide(Term(Yz), kT)
+        E.defs += [c == toz(cT), s == toz(sT), phi > -PI, phi <= PI]
         return Angle({name: (Fraction(1), 0)})
 
     def arcsin(self, x):
         xz = toz(x)
         E.obligation('arcsin', z3.And(xz >= -1, xz <= 1))
+        key, hit = self._cached('asin', xz)
+        if hit is not None:
+            return hit
+        r = self._arcsin(xz)
+        E.labels[key] = ((xz,), r)
+        return r
+
+    def _arcsin(self, xz):
         name = A.new_atom('asin')
         phi = A.value(name)
         c, s = A.pair(name, 1)
@@ -351,6 +434,14 @@ class Trig:
     def arccos(self, x):
         xz = toz(x)
         E.obligation('arccos', z3.And(xz >= -1, xz <= 1))
+        key, hit = self._cached('acos', xz)
+        if hit is not None:
+            return hit
+        r = self._arccos(xz)
+        E.labels[key] = ((xz,), r)
+        return r
+
+    def _arccos(self, xz):
         name = A.new_atom('acos')
         phi = A.value(name)
         c, s = A.pair(name, 1)
